@@ -187,12 +187,15 @@ def agg_cases(draw):
       # an edit that keeps a rule's input pattern and renames its aggregate
       r = draw(st.sampled_from(rules))
       rules2.append(dict(r, output='renamed.' + r['output']))
+  removed = False
+  if rules2 is None and rules and draw(st.integers(0, 3)) == 0:
+    rules2, removed = [], True          # second generation: the file is gone, no rules apply any more
   names = draw(st.lists(aggpat.names_for(rules + (rules2 or [])), min_size=2, max_size=12))
   return {'kind': 'agg', 'rules': rules, 'rules2': rules2, 'styles': [draw(st.integers(0, 1)) for _ in rules],
           'dests': conf['dests'], 'rf': conf['rf'], 'diverse': conf['diverse'], 'hash': conf['hash'],
           'router': draw(st.sampled_from(['aggregated-consistent-hashing', 'aggregated-consistent-hashing',
                                           'fast-aggregated-hashing'])),
-          'names': [n for n in names if n], 'comment_lines': draw(st.booleans()),
+          'names': [n for n in names if n], 'comment_lines': draw(st.booleans()), 'rules2_file_removed': removed,
           # the documented name-lookup cache of the rules (off by default)
           'cache': draw(st.sampled_from(['off', 'off', 'lru', 'ttl']))}
 
@@ -268,9 +271,13 @@ def execute_agg(ctx, case):
     generations.append(case['rules2'])
   for gi, current_rules in enumerate(generations):
     if gi == 1:
-      with open(path, 'w') as f:
-        f.write('\n'.join(aggpat.render(r, 0) for r in current_rules) + '\n')
-      os.utime(path, (1500000100, 1500000100))
+      if case.get('rules2_file_removed'):
+        # the rules file disappears: the manager clears its rules at the next re-read (no mtime to look at)
+        os.unlink(path)
+      else:
+        with open(path, 'w') as f:
+          f.write('\n'.join(aggpat.render(r, 0) for r in current_rules) + '\n')
+        os.utime(path, (1500000100, 1500000100))
       try:
         RM.read_rules()          # what the manager's 10 s reload task calls
       except Exception as e:  # noqa
